@@ -141,13 +141,15 @@ def run(prop, tier, seed, replay=None):
         if c["samples_with_stability_test_ok"] < 500:
             raise core.ToolError("vacuity guard: only %d samples with the stability test on" % c["samples_with_stability_test_ok"])
     ddc = None
-    if prop == "C15":
-        # "... each to a relative accuracy proportional to the condition number": also in a user type of higher precision
+    if prop in ("C15", "C16"):
+        # "... each to a relative accuracy proportional to the condition number" (C15), "Ok only if the distance is at most tol" (C16):
+        # also in a user type of higher precision (the tolerance boundary is then decided by the low part of the distance)
         from . import p_sample
-        rpath, rruns, rst, rn = p_sample.gen_routing(tier, wd, seed)
+        if prop == "C15":
+            rpath, rruns, rst, rn = p_sample.gen_routing(tier, wd, seed)
         ddv, ddc = p_sample.dd_part(prop, tier, wd, seed, rpath)
         violations += ddv
-        c["violations_C15"] = c.get("violations_C15", 0) + ddc.get("violations_C15", 0)
+        c["violations_" + prop] = c.get("violations_" + prop, 0) + ddc.get("violations_" + prop, 0)
     cov = {
         "states": r.distinct + tstates, "transitions": r.generated,
         "traces_validated_against_impl": s1["evaluations"] + s2["evaluations"] - len(rej),
